@@ -32,7 +32,7 @@ def build():
          ensures=[E('val', 'r.0@ == 1 - self.0@')])
     # ---- ZeroableGeneration
     u.fn(F, ['impl ZeroableGeneration', 'fn id'], ret='r', props=P, ensures=[E('val', 'r == zid(self)')],
-         closures={0: dict(params='gen: Generation', ret='r__: i32', ensures=[('id', 'r__ == gen.0@')])})
+         closures={'|gen|': dict(params='gen: Generation', ret='r__: i32', ensures=[('id', 'r__ == gen.0@')])})
     u.fn(F, ['impl ZeroableGeneration', 'fn is_alive'], ret='r', props=P, ensures=[E('val', 'r == (zid(self) > 0)')])
     u.fn(F, ['impl ZeroableGeneration', 'fn die'], props=P, rules=[N5],
          requires=[E('alive', 'zid(*old(self)) > 0')],
@@ -60,7 +60,7 @@ def build():
            E('last', 'old(self)@.len() > 0 ==> r == Some(old(self)@.last()) && final(self)@ == old(self)@.drop_last()')]
     u.fn(F, ['impl EntityCache', 'fn pop_atomic'], ret='r', props='C01 C17 C20', mut_self=True, mut_fields=['len'],
          requires=[E('wf', 'old(self).wf()')], ensures=POP,
-         closures={0: dict(params='x: usize', ret='r__: Index', requires=[('inrange', '0 < x <= self.cache@.len()')], ensures=[('slot', 'r__ == self.cache@[x - 1]')])})
+         closures={'|x|': dict(params='x: usize', ret='r__: Index', requires=[('inrange', '0 < x <= self.cache@.len()')], ensures=[('slot', 'r__ == self.cache@[x - 1]')])})
     u.fn(F, ['impl EntityCache', 'fn pop'], ret='r', props='C01 C17 C20',
          requires=[E('wf', 'old(self).wf()')], ensures=POP)
     u.fn(F, ['impl EntityCache', 'fn maintain'], props='C01 C17 C20',
@@ -89,7 +89,7 @@ def build():
                          ensures=[('val', 'r__.0@ == (if gen.0@ > 0 { gen.0@ as int } else { 1 - gen.0@ })')])
     u.fn(F, ['impl Allocator', 'fn generation'], ret='r', props='C01 C02',
          ensures=[E('val', 'r == (if (id as int) < self.generations@.len() { self.generations@[id as int].0 } else { None })')],
-         closures={0: dict(params='gen: ZeroableGeneration', ret='r__: Option<Generation>', ensures=[('field', 'r__ == gen.0')])})
+         closures={'|gen|': dict(params='gen: ZeroableGeneration', ret='r__: Option<Generation>', ensures=[('field', 'r__ == gen.0')])})
     u.fn(F, ['impl Allocator', 'fn entity'], ret='r', props='C02', rules=[GEN_ONE_CLOSURE],
          requires=[E('wf', 'self.wf()'), E('headroom', 'self.headroom_n(2)')],
          ensures=[E('id', 'r.0 == id'), E('gen', 'r.1.0@ == self.cur_gen(id)')])
@@ -117,7 +117,7 @@ def build():
          rules=[GEN_ONE_CLOSURE],
          requires=[E('wf', 'old(self).wf()'), E('headroom', 'old(self).headroom()')],
          ensures=CREATE_ENS('create_deferred'),
-         closures={0: RAISE_CLOSURE},
+         closures={'|gen|': RAISE_CLOSURE},
          hints=[('before_tail', None, 'proof { lemma_alloc(old(self), &*self, id, false); }')])
     u.fn(F, ['impl Allocator', 'fn allocate'], ret='r', props='C01 C02 C17 C20',
          requires=[E('wf', 'old(self).wf()'), E('headroom', 'old(self).headroom()')],
@@ -144,6 +144,43 @@ def build():
                 ('before', 'return Err', 'proof { if self.cache@.len() == p.cache@.len() + index { assert(/*@L:hint.free_prefix*/ self.cache@ =~= p.cache@ + ids(delete@.subrange(0, index as int)) /*@E*/); } lemma_kill_done(old(self), &p, &*self, delete@, index as nat); }'),
                 ('after', 'if !self.is_alive(', 'proof { lemma_kill_cur(old(self), &p, delete@, index as nat); assert(p.abs().occ(delete@[index as int].0)); assert(p.alive@.contains(delete@[index as int].0) <==> p.gid(delete@[index as int].0 as int) > 0); assert(p.raised@.contains(delete@[index as int].0) ==> p.gid(delete@[index as int].0 as int) <= 0); }'),
                 ('before_tail', None, 'proof { assert(delete@.subrange(0, delete@.len() as int) =~= delete@); if self.cache@.len() == mid.cache@.len() + delete@.len() { assert(/*@L:hint.free_all*/ self.cache@ =~= mid.cache@ + ids(delete@) /*@E*/); } lemma_kill_done(old(self), &mid, &*self, delete@, delete@.len()); }')])
+    # ---- EntitiesRes (shared resource): thin wrappers, each must pass its callee's contract through unchanged
+    ER_REQ = [E('wf', 'old(self).alloc.wf()'), E('headroom', 'old(self).alloc.headroom()')]
+    u.fn(F, ['impl EntitiesRes', 'fn create'], ret='r', props='C01 C02 C17 C20', mut_self=True,
+         requires=ER_REQ,
+         ensures=[E('wf', 'final(self).alloc.wf()', 'C01 C02'),
+                  E('handle', 'hid(r) == old(self).alloc.abs().created()', 'C01 C20'),
+                  E('state', 'final(self).alloc.abs() == old(self).alloc.abs().create_deferred()', 'C01 C02 C17 C20'),
+                  E('complete', 'old(self).alloc.wf_complete() ==> final(self).alloc.wf_complete()', 'C17'),
+                  E('headroom', 'final(self).alloc.headroom_n(2)', 'C01')])
+    u.fn(F, ['impl EntitiesRes', 'fn delete'], ret='r', props='C02', mut_self=True,
+         requires=[E('wf', 'old(self).alloc.wf()'), E('headroom', 'old(self).alloc.headroom_n(2)'), E('legit', 'old(self).alloc.abs().legit(e)')],
+         ensures=[E('wf', 'final(self).alloc.wf()', 'C01 C02'),
+                  E('result', 'r.is_ok() == old(self).alloc.abs().current(e)'),
+                  E('err_entity', 'r.is_err() ==> r.unwrap_err().entity == e'),
+                  E('state', 'final(self).alloc.abs() == (if old(self).alloc.abs().current(e) { old(self).alloc.abs().defer_kill(e) } else { old(self).alloc.abs() })'),
+                  E('complete', 'old(self).alloc.wf_complete() ==> final(self).alloc.wf_complete()', 'C17')])
+    u.fn(F, ['impl EntitiesRes', 'fn entity'], ret='r', props='C02',
+         requires=[E('wf', 'self.alloc.wf()'), E('headroom', 'self.alloc.headroom_n(2)')],
+         ensures=[E('id', 'r.0 == id'), E('gen', 'r.1.0@ == self.alloc.cur_gen(id)')])
+    u.fn(F, ['impl EntitiesRes', 'fn is_alive'], ret='r', props='C02 C03',
+         requires=[E('wf', 'self.alloc.wf()'), E('headroom', 'self.alloc.headroom_n(2)')],
+         ensures=[E('alive_spec', 'r == self.alloc.alive_spec(e)')])
+    # ---- entities join members (N12: trait-impl methods emitted as free functions, Self::* substituted)
+    JT = [('N12', r'Self::Mask', "BitSetOr<&'a BitSet, &'a AtomicBitSet>"), ('N12', r'Self::Value', "&'a EntitiesRes"),
+          ('N12', r'\(self\)', "(self_: &'a EntitiesRes)"), ('N12', r'\bself\b', 'self_')]
+    GET_REQ = lambda v: [E('wf', '%s.alloc.wf()' % v), E('headroom', '%s.alloc.headroom_n(2)' % v), E('inmask', '%s.alloc.occ(id)' % v)]
+    GET_ENS = lambda v: [E('id', 'r.0 == id'), E('gen', 'r.1.0@ == %s.alloc.cur_gen(id)' % v, 'C02 C06')]
+    for (hdr, nm, gen) in [("impl<'a> Join for &'a EntitiesRes", 'join', "<'a>"),
+                           ("impl<'a> LendJoin for &'a EntitiesRes", 'lend_join', "<'a>"),
+                           ("impl<'a> ParJoin for &'a EntitiesRes", 'par_join', "<'a>")]:
+        u.fn(F, [hdr, 'fn open'], ret='r', props='C02 C06', free='entities_%s_open' % nm, key='EntitiesRes_%s::open' % nm,
+             rules=JT + [('N12', r'fn open\(', "fn open<'a>(")],
+             ensures=[E('mask', 'r.0@ == self_.alloc.alive@ + self_.alloc.raised@'), E('value', 'r.1 == self_')])
+        u.fn(F, [hdr, 'fn get'], ret='r', props='C02 C06', free='entities_%s_get' % nm, key='EntitiesRes_%s::get' % nm,
+             rules=[GEN_ONE_CLOSURE, ('N12', r"fn get(<'next>)?\(", "fn get<'a, 'next>(")],
+             requires=GET_REQ('v' if nm == 'par_join' else 'old(v)'), ensures=GET_ENS('v' if nm == 'par_join' else 'old(v)'), closures={'|gen|': RAISE_CLOSURE},
+             hints=[('start', None, 'proof { lemma_gid_facts(&v.alloc, id); }')])
     u.fn(F, ['impl Allocator', 'fn merge'], ret='r', props='C01 C02',
          requires=[E('wf', 'old(self).wf()'), E('headroom', 'old(self).headroom()')],
          ensures=[E('wf', 'final(self).wf()', 'C01 C02'),
